@@ -1,6 +1,6 @@
 (* Runner entry points: one number per executable model function.  The Python
    harness reads the "(* ENTRY n name *)" comments to build its name table. *)
-From HX Require Import Model.Base Model.Cell Model.EmitterEntry Model.Serial Model.DateFns Model.Comparator Model.Value Model.Logic Model.Lookup Model.Text Model.Operators Model.ErrorFlow Model.Rounding Model.Radix Model.Aggregates.
+From HX Require Import Model.Base Model.Cell Model.EmitterEntry Model.Serial Model.DateFns Model.Comparator Model.Value Model.Logic Model.Lookup Model.Text Model.Operators Model.ErrorFlow Model.Rounding Model.Radix Model.Aggregates Model.InterpEntry.
 
 Definition dispatch (e : Z) (a : list Z) : list Z :=
   match e with
@@ -30,5 +30,7 @@ Definition dispatch (e : Z) (a : list Z) : list Z :=
   | 1701 => e_rounding a    (* ENTRY 1701 rounding *)
   | 1702 => e_radix a       (* ENTRY 1702 radix *)
   | 1101 => e_aggregate a   (* ENTRY 1101 aggregate *)
+  | 401 => e_parse a        (* ENTRY 401 parse *)
+  | 402 => e_lex a          (* ENTRY 402 lex *)
   | _ => [-999]
   end.
